@@ -76,7 +76,23 @@ TypeCompatible(wf) ==
                                     /\ (inp.kids[f].t \in {"lit", "ref"} => Compat(PluginInputType(f), inp.kids[f].ty))
                                     \* an optional tag does not exempt a reference from the type check
                                     /\ (inp.kids[f].t = "opt" /\ inp.kids[f].e.t = "ref" => Compat(PluginInputType(f), inp.kids[f].e.ty))
-PrepareVerdict(wf) == ~Dangling(wf) /\ ~Collision(wf) /\ Acyclic(ExpectedDAG(wf)) /\ TypeCompatible(wf)
+\* a one-of adds its discriminator to the data of the chosen alternative: an alternative that is a whole output object
+\* which has a field of that name already makes the one-of ill-formed
+RECURSIVE OneOfs(_)
+OneOfs(tree) ==
+  CASE tree.t = "oneof" -> {tree} \cup UNION {OneOfs(tree.opts[k]) : k \in DOMAIN tree.opts}
+    [] tree.t = "map"   -> UNION {OneOfs(tree.kids[k]) : k \in DOMAIN tree.kids}
+    [] tree.t = "list"  -> UNION {OneOfs(tree.kids[i]) : i \in DOMAIN tree.kids}
+    [] OTHER -> {}
+\* (decided for the workflow's outputs, whose schema is inferred and linked as a whole; a step input of type any takes
+\* such a value as it comes)
+DiscClash(wf) ==
+  \E t \in {wf.outputs[x] : x \in OutputIds(wf)} : \E o \in OneOfs(t) : \E k \in DOMAIN o.opts :
+     LET e == o.opts[k] IN
+     e.t = "ref" /\ e.mode # "opaque" /\ e.sub = <<>>
+     /\ \E s \in StepIds(wf) : \E st \in StagesOf(KindOf(wf, s)) : \E out \in Declared(wf, s, st) :
+          e.src = StageOutNode(s, st, out) /\ o.disc \in OutFields(KindOf(wf, s), st, out)
+PrepareVerdict(wf) == ~Dangling(wf) /\ ~Collision(wf) /\ Acyclic(ExpectedDAG(wf)) /\ TypeCompatible(wf) /\ ~DiscClash(wf)
 
 \* ---- the order-nondeterministic construction ------------------------------------------------------------------
 VARIABLES ci, dag, todo, failed
@@ -104,7 +120,7 @@ Connect(w) ==
 Next == \E w \in todo : Connect(w)
 Spec == Init /\ [][Next]_vars
 Terminal == failed \/ todo = {}
-Accepted == ~failed /\ todo = {} /\ Acyclic(dag) /\ TypeCompatible(WF) /\ (~\E t \in AllTrees(WF) : \E r \in Refs(t) : ~SubOK(WF, r))
+Accepted == ~failed /\ todo = {} /\ Acyclic(dag) /\ TypeCompatible(WF) /\ ~DiscClash(WF) /\ (~\E t \in AllTrees(WF) : \E r \in Refs(t) : ~SubOK(WF, r))
 \* C16 (confluence) and C10 (the declarative graph and verdict), in every terminal state of every order
 Confluent == Terminal => /\ Accepted = PrepareVerdict(WF)
                          /\ (Accepted => dag = ExpectedDAG(WF))
